@@ -18,6 +18,7 @@ type specRules spec.Rules
 var specialStrings = []string{
 	"a", "x y", "a/b", "a?b", "a#b", "100%", "a+b", "a&b=c", "=", "é", "日本語", "😀", "%2F", "%zz", "a\"b", "a\\b", "\t", "<>",
 	"..a", "a..", "-1", "0", "true", "null", "{}", "[", "a,b", " lead", "trail ", "%", "+", "&", ";", ":", "@", "~", "'", "a\nb",
+	"Ca$$h", "R$&D", "cost$'s", "$`x", "$1", "a$", "$$", "a%2Fb", "100%25", "caf%C3%A9", "x=1&y=2", "a;b", "[x]", "{id}",
 }
 
 // GenOpts steers message generation.
